@@ -676,8 +676,9 @@ def replace_fixed_thetas(model: Model):
     keep = []
     new_assignments = []
 
+    rv_params = set(model.random_variables.parameter_names)
     for p in model.parameters:
-        if p.fix:
+        if p.fix and p.name not in rv_params:
             ass = Assignment(p.symbol, Expr.float(p.init))
             new_assignments.append(ass)
         else:
